@@ -723,20 +723,11 @@ def scope_compare(case, obs, mo, sites):
     return None
 
 
-def is_closer_leak(case, obs):
-    """F-C13b: the closer of scripting.prepare, a finished callback raises"""
-    return (case.get('scenario') in ('prepare_closer', 'with_prepare')
-            and any(v[0].startswith('fin') and v[2] for v in obs['visits']))
-
-
 def scope_check(case, obs):
     """the property on a scope: the stack is back at its previous depth when the scope ends, however it ends"""
     if obs['after'] != obs['before']:
-        v = {'case': case, 'impl': obs, 'expected': {'after': obs['before']},
-             'detail': 'scope %s leaves the thread-local stack at depth %d, it was %d' % (case['scenario'], obs['after'], obs['before'])}
-        if is_closer_leak(case, obs):
-            v['finding'] = 'F-C13b'
-        return v
+        return {'case': case, 'impl': obs, 'expected': {'after': obs['before']},
+                'detail': 'scope %s leaves the thread-local stack at depth %d, it was %d' % (case['scenario'], obs['after'], obs['before'])}
     return None
 
 
